@@ -1048,6 +1048,17 @@ GEN_SRC.update({n: gen_src(n) for n in ("SrcAvl",)})
 EXTRACTORS["C07"] = EXTRACTORS["C07"] + [GEN_SRC["SrcAvl"]]
 
 
+# genprob: log-space probability arithmetic (C15) — dialect "prob" of tools/rs2lean_genprob.py (`f64` abstract);
+# Thm/C15.lean imports RbV.Thm.GenSrcProbs / GenSrcFastExp and restates the theorems; the shape-dependent equalities with
+# the hand-written real-number model are soft (RbV.Thm.GenSrcProbsModel)
+TRANSLATOR_MODULES.append("rs2lean_genprob")
+GEN_SRC.update({n: gen_src(n) for n in ("SrcProbs", "SrcFastExp")})
+SOFT_PROBS = soft_modules(["RbV.Thm.GenSrcProbsModel"], "the real-number model of `ln_add_exp` / `ln_1m_exp` / `ln_sub_exp` / "
+                          "`ln_cumsum_exp` (Lemmas/C15*.lean) no longer mirrors the text branch by branch (the property-level "
+                          "error bounds over the translated text are checked separately)")
+EXTRACTORS["C15"] = EXTRACTORS["C15"] + [GEN_SRC["SrcProbs"], GEN_SRC["SrcFastExp"], SOFT_PROBS]
+
+
 def main():
     ap = argparse.ArgumentParser()
     ap.add_argument("--repo", default=os.environ.get("VERIF_REPO", "/repo"))
